@@ -323,6 +323,11 @@ class Analyzer:
             else:
                 self.err(d, f'unknown decorator {nm}')
 
+    @staticmethod
+    def stored_array(d):
+        """core arrays, or one named variable (not a table as a container)"""
+        return {x for x in d if x[1] in ('nodes', 'elements') or x[2] is not None}
+
     def callee_of(self, call):
         """(FunctionDef, mutated parameter set) of a call to a sibling / mesh method, else None"""
         f = call.func
@@ -408,7 +413,7 @@ class Analyzer:
                 self.err(n, 'the mesh object escapes (' + type(p).__name__ + ')')
             # --- fields
             if isinstance(n, ast.Call):
-                den = self.denotes(n)
+                den = self.stored_array(self.denotes(n))
                 if den and self.inplace_use(n, self.par.get(n)):
                     self.add('w', den)
                     self.add('r', den)
@@ -419,10 +424,13 @@ class Analyzer:
                 if not den:
                     continue
                 p = self.par.get(n)
-                if not (isinstance(n, ast.Name) and isinstance(n.ctx, ast.Store)) and self.inplace_use(n, p):
-                    self.add('w', den)
-                    self.add('r', den)
-                    self.add('i', den)
+                # (only stored arrays - core data or one named variable: a table handed to a helper
+                # as a container is a keyed store the helper's own analysis does not resolve)
+                arr = self.stored_array(den)
+                if arr and not (isinstance(n, ast.Name) and isinstance(n.ctx, ast.Store)) and self.inplace_use(n, p):
+                    self.add('w', arr)
+                    self.add('r', arr)
+                    self.add('i', arr)
                     continue
                 if isinstance(n, ast.Attribute) and isinstance(p, ast.Call) and p.func is n \
                         and self.denotes(n.value):
@@ -461,10 +469,7 @@ class Analyzer:
 
     def classify(self, n, p, den):
         ctx = getattr(n, 'ctx', None)
-
-        def stored_array(d):
-            # core arrays, or one named variable (not the table as a container)
-            return {x for x in d if x[1] in ('nodes', 'elements') or x[2] is not None}
+        stored_array = self.stored_array
         if isinstance(ctx, (ast.Store, ast.Del)):
             self.add('w', den)
             if isinstance(n, ast.Subscript) and isinstance(ctx, ast.Store):
@@ -815,13 +820,30 @@ def mutated_params(fns):
                         changed = True
         info[nm] = alias
     mut = {nm: set() for nm in fns}
+    # a name rebound to a fresh value by a top-level statement of the body (x = x.copy()) no
+    # longer shares the parameter's storage in the statements after it
+    kill = {}
+    for nm, fn in fns.items():
+        kill[nm] = {}
+        for st in fn.body:
+            if isinstance(st, ast.Assign) and len(st.targets) == 1 and isinstance(st.targets[0], ast.Name) \
+                    and st.targets[0].id in info[nm] and _view_root(st.value, info[nm]) is None:
+                kill[nm].setdefault(st.targets[0].id, st.end_lineno or st.lineno)
+
+    def _base_name(e):
+        while isinstance(e, (ast.Attribute, ast.Subscript, ast.Starred)):
+            e = e.value
+        return e.id if isinstance(e, ast.Name) else None
     changed = True
     while changed:
         changed = False
         for nm, fn in fns.items():
             alias = info[nm]
 
-            def hit(e):
+            def hit(e, _nm=nm, _alias=alias):
+                b = _base_name(e)
+                if b is not None and b in kill[_nm] and getattr(e, 'lineno', 0) > kill[_nm][b]:
+                    return False
                 r = _view_root(e, alias)
                 if r is not None and r not in mut[nm]:
                     mut[nm].add(r)
@@ -1583,6 +1605,66 @@ def emit(cfg):
     L.append('')
     L.append('Definition cfg : config := mkcfg\n  ' + cl(qn) + '\n  ' + cl(en) + '\n  ' + cl(dn) + '.')
     return '\n'.join(L) + '\n'
+
+
+SELFTEST_SRC = '''
+class W:
+    def swap(self, d):
+        d[:, [1, 2]] = d[:, [2, 1]]
+        return d
+    def swap_copy(self, d):
+        e = d.copy()
+        e[:, [1, 2]] = e[:, [2, 1]]
+        return e
+    def swap_rebound(self, d):
+        d = np.array(d)
+        d[:, [1, 2]] = d[:, [2, 1]]
+        return d
+    def absout(self, m, flag):
+        if flag:
+            np.abs(m, out=m)
+        return m
+    def absnew(self, m, flag):
+        if flag:
+            m = np.abs(m)
+        return m
+    def through(self, x):
+        return self.swap(np.asarray(x))
+    def rows(self, d):
+        for row in d:
+            row[0] = 1
+    def aug(self, a):
+        v = a.data
+        v += 1
+    def writer(self):
+        for element_type, elements in self.fem_data.elements.items():
+            data = self.swap(elements.data)
+    def writer_ok(self):
+        for element_type, elements in self.fem_data.elements.items():
+            data = self.swap_copy(elements.data)
+    def query(self):
+        return self.absout(self.fem_data.elemental_data.get_attribute_data('metric'), True)
+    def query_ok(self):
+        return self.absnew(self.fem_data.elemental_data.get_attribute_data('metric'), True)
+'''
+
+
+def selftest():
+    """translator validation: the in-place analysis on a fixed set of positive and negative
+    forms; returns the list of failed expectations (empty = passed)"""
+    cls = [n for n in ast.parse(SELFTEST_SRC).body if isinstance(n, ast.ClassDef)][0]
+    meths = class_methods(cls)
+    mut = mutated_params(meths)
+    want = {'swap': {'d'}, 'swap_copy': set(), 'swap_rebound': set(), 'absout': {'m'}, 'absnew': set(),
+            'through': {'x'}, 'rows': {'d'}, 'aug': {'a'}}
+    bad = [f'mutated_params({k}) = {sorted(mut[k])}, expected {sorted(v)}' for k, v in want.items() if mut[k] != v]
+    exp = {'writer': ({('elements', None)}, {('elements', None)}), 'writer_ok': (set(), set()),
+           'query': ({('elemental_data', 'metric')}, {('elemental_data', 'metric')}), 'query_ok': (set(), set())}
+    for k, (w, i) in exp.items():
+        f = Analyzer(meths[k], {}, 'self.fem_data', 'selftest', siblings=meths, mut=mut, mut_universe={}).run()
+        if f.writes != w or f.inplace != i:
+            bad.append(f'{k}: writes {sorted(f.writes)} inplace {sorted(f.inplace)}, expected {sorted(w)} / {sorted(i)}')
+    return bad
 
 
 if __name__ == '__main__':
